@@ -877,11 +877,8 @@ Definition k_egress (k : kernel) : kernel * list packet :=
 Definition udp_max_payload (k : kernel) (dst : ip) : N :=
   (if is_loop dst then lo_mtu (cfg k) else mtu (cfg k)) - (if v6 dst then ipv6_hdr else ipv4_hdr) - udp_hdr.
 
-Definition k_udp_send_to (k : kernel) (fd : N) (pl : list N) (dst : sockaddr) : kernel * res N :=
-  match lookup k fd with
-  | None => (k, Err ENotFound)
-  | Some s =>
-    if negb (Bool.eqb (s_v6 s) (v6 (fst dst))) then (k, Err EAfNoSupport) else
+(* udp.rs `send_to`: what both send syscalls share (size check first, then auto-bind, then the datagram) *)
+Definition udp_send_core (k : kernel) (fd : N) (s : socket) (pl : list N) (dst : sockaddr) : kernel * res N :=
     if udp_max_payload k (fst dst) <? len pl then (k, Err EMsgSize) else
     let '(k1, r) := match s_bound s with
                     | Some b => (k, Ready b)
@@ -895,6 +892,42 @@ Definition k_udp_send_to (k : kernel) (fd : N) (pl : list N) (dst : sockaddr) : 
                       else match first_addr k1 (v6 (fst dst)) with Some a => a | None => bk_addr b end
                     else bk_addr b in
       (emit k1 (mkpkt src_ip (fst dst) (Udp (bk_port b) (snd dst) pl)), Ready (len pl))
+    end.
+
+(* Kernel::poll_send_to (send_to / try_send_to) *)
+Definition k_udp_send_to (k : kernel) (fd : N) (pl : list N) (dst : sockaddr) : kernel * res N :=
+  match lookup k fd with
+  | None => (k, Err ENotFound)
+  | Some s =>
+    if negb (Bool.eqb (s_v6 s) (v6 (fst dst))) then (k, Err EAfNoSupport) else
+    udp_send_core k fd s pl dst
+  end.
+
+(* Kernel::poll_connect, Dgram arm (UdpSocket::connect): auto-bind, remember the peer *)
+Definition k_udp_connect (k : kernel) (fd : N) (peer : sockaddr) : kernel * res unit :=
+  match lookup k fd with
+  | None => (k, Err ENotFound)
+  | Some s =>
+    if negb (Bool.eqb (s_v6 s) (v6 (fst peer))) then (k, Err EAfNoSupport) else
+    let '(k1, r) := match s_bound s with
+                    | Some b => (k, Ready b)
+                    | None => auto_bind k fd false (fst peer) end in
+    match r with
+    | Err e => (k1, Err e)
+    | Pending => (k1, Pending)
+    | Ready _ => (upd_sock k1 fd (fun s => set_peer s (Some peer)), Ready tt)
+    end
+  end.
+
+(* Kernel::poll_send, Dgram arm (send / try_send of a connected UdpSocket): the
+   stored peer is the destination; no family check here (connect did it) *)
+Definition k_udp_send (k : kernel) (fd : N) (pl : list N) : kernel * res N :=
+  match lookup k fd with
+  | None => (k, Err ENotFound)
+  | Some s =>
+    match s_peer s with
+    | None => (k, Err ENotConnected)
+    | Some dst => udp_send_core k fd s pl dst
     end
   end.
 
@@ -998,7 +1031,8 @@ Inductive ev :=
 | EShutdown (slot : N) | EClose (slot : N) | EAddrs (slot : N)
 | EEgress | EDeliver (k : N) | EDrop (k : N) | EDup (k : N) | EFlush
 | ENetstat (h : N) | ECounts (h : N)
-| EUdpBind (slot h a port : N) | EUdpSend (slot n a port : N).
+| EUdpBind (slot h a port : N) | EUdpSend (slot n a port : N)
+| EUdpConnect (slot a port : N) | EUdpSendC (slot n : N).
 
 (* Observations are rows of numbers (first row starts with a tag:
    0 ok, 1 error code, 2 pending, 9 no such slot / packet). *)
@@ -1212,6 +1246,34 @@ Definition step (w : world) (e : ev) : world * obs :=
         end
       | _ => (w, o_none)
       end
+  | EUdpConnect slot a port =>
+      match slot_get (slots w) slot with
+      | Some (HUdp h fd) =>
+        match get_host w h with
+        | None => (w, o_none)
+        | Some k =>
+          match k_udp_connect k fd (mkip (w6 w) a, port) with
+          | (k1, Ready _) => (set_host w h k1, [[0]])
+          | (k1, Pending) => (set_host w h k1, o_pending)
+          | (k1, Err er) => (set_host w h k1, o_err er)
+          end
+        end
+      | _ => (w, o_none)
+      end
+  | EUdpSendC slot n =>
+      match slot_get (slots w) slot with
+      | Some (HUdp h fd) =>
+        match get_host w h with
+        | None => (w, o_none)
+        | Some k =>
+          match k_udp_send k fd (repeat 7 (N.to_nat n)) with
+          | (k1, Ready m) => (set_host w h k1, [[0; m]])
+          | (k1, Pending) => (set_host w h k1, o_pending)
+          | (k1, Err er) => (set_host w h k1, o_err er)
+          end
+        end
+      | _ => (w, o_none)
+      end
   end.
 
 Fixpoint run (w : world) (es : list ev) : world * list obs :=
@@ -1388,6 +1450,7 @@ Inductive oev :=
 | OSend (fd : N) (b : list N) | ORecv (fd n : N) | OShutdown (fd : N)
 | OClose (fd : N)                            (* drop of a handle; also cancelling a pending connect *)
 | OUdpBind (a : sockaddr) | OUdpSend (fd : N) (pl : list N) (dst : sockaddr)
+| OUdpConnect (fd : N) (peer : sockaddr) | OUdpSendC (fd : N) (pl : list N)   (* UdpSocket::connect, send / try_send *)
 | ODeliver (p : packet) | OEgress.
 
 Definition has_tcb_b (k : kernel) (fd : N) : bool :=
@@ -1438,6 +1501,12 @@ Definition ostep (o : okern) (e : oev) : okern :=
   | OUdpSend fd pl dst =>
       if own o fd && is_dgram k fd && negb (has_tcb_b k fd)
       then mkok (fst (k_udp_send_to k fd pl dst)) (owned o) (acc_log o) else o
+  | OUdpConnect fd peer =>
+      if own o fd && is_dgram k fd && negb (has_tcb_b k fd)
+      then mkok (fst (k_udp_connect k fd peer)) (owned o) (acc_log o) else o
+  | OUdpSendC fd pl =>
+      if own o fd && is_dgram k fd && negb (has_tcb_b k fd)
+      then mkok (fst (k_udp_send k fd pl)) (owned o) (acc_log o) else o
   | ODeliver p => mkok (k_deliver k p) (owned o) (acc_log o)
   | OEgress => mkok (fst (k_egress k)) (owned o) (acc_log o)
   end.
